@@ -86,6 +86,9 @@ func cf(x float64) string {
 	return strconv.FormatFloat(x, 'x', -1, 64)
 }
 
+// cfs is cf with an explicit scope delimiter, for floats inside list literals.
+func cfs(x float64) string { return "(" + cf(x) + ")%float" }
+
 func cEnts(es []Ent) string {
 	var sb strings.Builder
 	sb.WriteString("[")
